@@ -2,6 +2,8 @@ package chain
 
 import (
 	"fmt"
+	"net/http"
+	"net/url"
 	"strings"
 
 	"github.com/gookit/rux"
@@ -831,6 +833,24 @@ func CheckRequestState(w *World, r *rux.Router, pm *PModel, method, path string,
 	if real.Escaped == nil {
 		if err := st.Rec.CheckCommit(); err != nil {
 			return fmt.Sprintf("%s %q: %v", method, path, err), info, st
+		}
+	}
+	if strict := pm.Table.Opts.Strict; w.Mounted && strings.HasPrefix(path, "/") && model.Normalize(path[1:], strict) == model.Normalize(path, strict) {
+		// the same request once more, arriving for /pre<path> at http.StripPrefix("/pre/", router): what reaches the
+		// router is the path without its leading slash (and RequestURI still names the mount) - same chain, same answer
+		st2 := w.NewRequest(method, path, faults...)
+		st2.Req.URL.Path = "/pre" + path
+		st2.Req.RequestURI = "/pre" + (&url.URL{Path: path}).EscapedPath()
+		var out2 Outcome
+		func() {
+			defer func() { out2.Escaped = recover() }()
+			http.StripPrefix("/pre/", r).ServeHTTP(st2.Rec, st2.Req)
+		}()
+		st2.FreezeCopies()
+		out2.Trace, out2.Log = st2.Tr.String(), st2.Rec.Log()
+		want2, _ := ModelDispatch(chain, pm.Hooks, NewRec(faults...), BuildRequest(method, path), ps, st2.NoAbt)
+		if d := Diff(out2, want2); d != "" {
+			return fmt.Sprintf("%s %q mounted behind http.StripPrefix(\"/pre/\") (%s, chain [%s]):\n%s", method, path, res.Kind, names(chain), d), info, st
 		}
 	}
 	return "", info, st
